@@ -10,7 +10,7 @@ var propIncludes = map[string][]inc{
 	"C01": {
 		{"C02", nil}, {"C09", nil}, {"C10", nil}, {"C11", nil}, {"C12", nil}, {"C13", nil}, {"C14", nil}, {"C15", nil}, {"C16", nil},
 		{"C04", rules("C04-R6", "C04-R7")},
-		{"C08", rules("C08-R1", "C08-R2", "C08-R4", "C08-R5")},
+		{"C08", nil},
 	},
 	// grouping needs every event to reach its arm and the statement text to be the master's
 	"C02": {{"C04", rules("C04-R6", "C04-R7")}, {"C16", map[string]func(string) bool{"C16-R4": prefix("layout@Query", "endian@Query"), "C16-R5": nil, "C16-R6": nil}}},
